@@ -14,6 +14,8 @@ from typing import Optional, Tuple
 from jedi.inference.compiled.getattr_static import getattr_static
 
 ALLOWED_GETITEM_TYPES = (str, list, tuple, bytes, bytearray, dict)
+ALLOWED_BOOL_TYPES = ALLOWED_GETITEM_TYPES \
+    + (bool, int, float, complex, set, frozenset, type(None))
 
 MethodDescriptorType = type(str.replace)
 # These are not considered classes and access is granted even though they have
@@ -178,7 +180,11 @@ class DirectObjectAccess:
     def _create_access_path(self, obj) -> AccessPath:
         return create_access_path(self._inference_state, obj)
 
-    def py__bool__(self):
+    def py__bool__(self, *, safe=False):
+        if safe and type(self._obj) not in ALLOWED_BOOL_TYPES:
+            # Get rid of side effects, we won't call custom `__bool__`s and
+            # `__len__`s.
+            return None
         return bool(self._obj)
 
     def py__file__(self) -> Optional[Path]:
@@ -322,7 +328,17 @@ class DirectObjectAccess:
     def dir(self):
         return dir(self._obj)
 
-    def has_iter(self):
+    def has_iter(self, *, safe=False):
+        if safe and type(self._obj) not in ALLOWED_GETITEM_TYPES:
+            # Get rid of side effects, we won't call custom `__iter__`s. Just
+            # check statically if the iteration protocol is there.
+            for name in ('__iter__', '__getitem__'):
+                try:
+                    getattr_static(type(self._obj), name)
+                    return True
+                except AttributeError:
+                    pass
+            return False
         try:
             iter(self._obj)
             return True
